@@ -41,14 +41,14 @@ pub fn s1(tier: Tier) -> Vec<Act> {
     // one failing message per ESR class
     let fails: Vec<Unit> = tier.pick(
         vec![
-            unit("FOO", U::Fail(RefErr::std(-113))),
-            unit("U8 256", U::Fail(RefErr::std(-222))),
+            unit("FOO", U::Fail(RefErr::lib(-113))),
+            unit("U8 256", U::Fail(RefErr::lib(-222))),
             unit("RAISE -400", U::Fail(RefErr::std(-400))),
             unit("RAISEX", U::Fail(RefErr::std(-300).with_ext(b"ext"))),
         ],
         vec![
-            unit("FOO", U::Fail(RefErr::std(-113))),
-            unit("U8 256", U::Fail(RefErr::std(-222))),
+            unit("FOO", U::Fail(RefErr::lib(-113))),
+            unit("U8 256", U::Fail(RefErr::lib(-222))),
             unit("RAISE -400", U::Fail(RefErr::std(-400))),
             unit("RAISEX", U::Fail(RefErr::std(-300).with_ext(b"ext"))),
             unit("RAISE -500", U::Fail(RefErr::std(-500))),
@@ -98,15 +98,15 @@ pub fn s3(ese: bool) -> Vec<Act> {
     for v in 0..=255u16 {
         a.push(msg(vec![unit(&format!("{n} {v}"), set(v as u8)), unit(&format!("{n}?"), q())]));
     }
-    a.push(msg1(&format!("{n} -1"), U::Fail(RefErr::std(-222))));
-    a.push(msg1(&format!("{n} 256"), U::Fail(RefErr::std(-222))));
+    a.push(msg1(&format!("{n} -1"), U::Fail(RefErr::lib(-222))));
+    a.push(msg1(&format!("{n} 256"), U::Fail(RefErr::lib(-222))));
     a.push(msg1(&format!("{n} #HFF"), set(255)));
-    a.push(msg1(&format!("{n} #H100"), U::Fail(RefErr::std(-222))));
-    a.push(msg1(&format!("{n}"), U::Fail(RefErr::std(-109))));
+    a.push(msg1(&format!("{n} #H100"), U::Fail(RefErr::lib(-222))));
+    a.push(msg1(&format!("{n}"), U::Fail(RefErr::lib(-109))));
     a.push(msg1(&format!("{n} 0.0"), set(0)));
     a.push(msg1(&format!("{n} 254.6"), set(255)));
     a.push(msg1(&format!("{n} 255.4"), set(255)));
-    a.push(msg1(&format!("{n} 255.6"), U::Fail(RefErr::std(-222))));
+    a.push(msg1(&format!("{n} 255.6"), U::Fail(RefErr::lib(-222))));
     a.push(msg1(&format!("{n} \"1\""), U::Fail(RefErr::std(-104).any_of_class())));
     a.push(msg1(&format!("{n}?"), q()));
     a.push(msg1("*STB?", U::Stb));
